@@ -25,6 +25,14 @@ ASSUMPTIONS = ["for a data-race-free library, interleaving at synchronisation an
 
 
 def gen(rng, tier, idx):
+    if idx % 60 == 31:
+        # many thread lifetimes in one process under a small descriptor table (see c01.gen_lifetimes): a thread that
+        # has finished must leave nothing behind that a later thread runs out of
+        from . import c01
+        c = c01.gen_lifetimes(rng)
+        nthl = len(c["tids"])
+        return {"kind": "iso", "variant": "small", "plan": c["plan"], "tids": c["tids"], "racers": [], "staggered": True, "tsan": False,
+                "exp": {str(t): {"cpus": [], "rank": None, "attrs": {}, "marks": {}, "require": {}} for t in range(nthl)}}
     r = rng.derive("plan")
     kind = r.weighted([("iso", 55), ("race-init", 22), ("race-fini", 23)])
     nth = r.randint(2, 4)
